@@ -39,9 +39,9 @@ var (
 	strSep  = q("a", "b", "a,", ",b", ",", `a\0`, `\0b`, `\0`, "")
 	strAll  = uniq(strCase, strPad, strExp, strSep)
 
-	intPool  = []string{"-2", "-1", "0", "1", "2", "3"}
-	uintPool = []string{"0", "1", "2", "3"}
-	decPool  = []string{"-0.50", "-1", "0", "0.00", "0.25", "0.5", "1", "1.0", "1.50", "2.00", "3", "0.1", "0.10"}
+	intPool  = []string{"-2", "-1", "0", "1", "2", "3", "10", "100", "20"} // incl. values that differ only by trailing zeros
+	uintPool = []string{"0", "1", "2", "3", "10", "100"}
+	decPool  = []string{"-0.50", "-1", "0", "0.00", "0.25", "0.5", "1", "1.0", "1.50", "2.00", "3", "0.1", "0.10", "10", "100", "10.00"}
 	dblPool  = []string{"0e0", "-0e0", "1e0", "1.0", "1.5", "15e-1", "0.25", "0.1", "1e-1", "2", "3", "-1", "-0.5"}
 
 	datePool = q("2020-01-01", "2020-01-02", "2019-12-31")
